@@ -2,6 +2,7 @@ package main
 
 import (
 	"fmt"
+	"os"
 	"go/types"
 	"math/big"
 	"strings"
@@ -77,6 +78,9 @@ func (ex *Exec) recordDraw(d Draw) { ex.draws = append(ex.draws, d) }
 func registerModels(e *Engine) {
 	registerRT(e)
 	registerBuffer(e)
+	registerCoop(e)
+	registerGuard(e)
+	registerFootprint(e)
 	registerCrypto(e)
 	registerMisc(e)
 	registerMore(e)
@@ -345,6 +349,11 @@ func (ex *Exec) assert(cond *Term, label string) {
 	} else {
 		script := ex.ctx.Script(as, ex.drawTerms())
 		r = ex.pool.Check(script, ms, ms*3)
+		if r == Unknown {
+			// last resort before the run becomes inconclusive (loaded machine): the whole
+			// portfolio with ten times the budget
+			r = ex.pool.Check(script, ms*3, ms*10)
+		}
 		if r == Unsat && ex.eng.tier == "thorough" && ex.eng.crossCheck {
 			r2, who := ex.pool.CheckBoth(script, ms*3)
 			if r2 != Unsat {
@@ -356,6 +365,10 @@ func (ex *Exec) assert(cond *Term, label string) {
 	case Unsat:
 		ex.res.Asserts++
 	case Sat:
+		if d := os.Getenv("VERIF_DUMP_VIOL"); d != "" {
+			q := ex.ctx.Script(as, ex.drawTerms())
+			_ = os.WriteFile(fmt.Sprintf("%s/viol_%s_%d.smt2", d, sanitize(label), len(ex.trace)), []byte(q.Def), 0o644)
+		}
 		v := &Violation{Harness: ex.h.Name, Kind: "assert", Label: label, Site: ex.frame.fn.String()}
 		ex.fillModelFromSession(v)
 		ex.res.Violations = append(ex.res.Violations, v)
